@@ -99,63 +99,123 @@ def rule_U5(ctx):
     cfg = f.cfg
     p = [x["name"] for x in f.params]
     buf, beg, end = p[1], p[2], p[3]
-    noop = None
-    for b in cfg.blocks.values():
-        br = cfg.branch(b.id)
-        if not br:
-            continue
-        c = f.nodes.get(br[0])
-        if c is not None and key(c) in ("(%s==%s)" % (beg, end), "(%s==%s)" % (end, beg)):
-            noop = c
-    clamps = [n for n, lv, op, rhs in stores(f.body)
-              if op == "=" and lv["k"] == "ref" and lv["name"] in (beg, end) and "ln_n" in key(rhs)]
     opts = list(f.calls("lbuf_opt"))
-    if noop is None:
+    if not opts:
+        raise AnalysisBroken("lbuf_edit does not call lbuf_opt")
+
+    def is_eq_test(c):
+        """leaf condition comparing beg with end: returns the truth value that means beg == end"""
+        c, t = negate_truth(c, True)
+        if c["k"] == "bin" and c["op"] in ("==", "!=") and {key(c["l"]), key(c["r"])} == {beg, end}:
+            return t if c["op"] == "==" else (not t)
+        return None
+
+    def is_buf_test(c):
+        """truth value of the original condition that means buf != NULL"""
+        c, t = negate_truth(c, True)
+        if key(c) == buf:
+            return t
+        if c["k"] == "bin" and c["op"] in ("==", "!=") and key(strip_casts(c["l"])) == buf:
+            from ..callgraph import is_null
+            if is_null(c["r"]):
+                return t if c["op"] == "!=" else (not t)
+        return None
+
+    def is_clamp_test(c):
+        k_ = key(c)
+        return "ln_n" in k_ and (beg in k_ or end in k_) and c["k"] == "bin" and c["op"] in (">", ">=", "<", "<=")
+
+    bad = None
+    order_bad = None
+    n_p = 0
+    for o in opts:
+        for items in paths_to(cfg, cfg.entry, o["id"]):
+            n_p += 1
+            guarded = False
+            seen_clamps = set()
+            for it in items:
+                if it[0] != "br":
+                    continue
+                c = f.nodes[it[1]]
+                if is_clamp_test(c):
+                    seen_clamps.add(key(c))
+                e = is_eq_test(c)
+                if e is not None:
+                    if it[2] != e:      # beg != end on this path
+                        guarded = True
+                    if len(seen_clamps) < 2:
+                        order_bad = c
+                b = is_buf_test(c)
+                if b is not None and it[2] == b:
+                    guarded = True
+            if not guarded:
+                bad = items
+    if bad is not None:
         ctx.violation("lbuf_edit", "no-op edit leaves no history entry",
-                      "no test `beg == end` (with no text) guards the log call: an empty delete would "
-                      "push an undo step and cut the redo branch")
-        return
-    if not all(cfg.dominates(noop, o) for o in opts):
-        ctx.violation("lbuf_edit", "no-op edit leaves no history entry", "the no-op test does not dominate lbuf_opt")
-        return
-    late = [c for c in clamps if not (cfg.pos(c) and cfg.search(cfg.pos(c), lambda e: e == noop["id"]) is not None)]
-    conds = {}
-    for c in clamps:
-        for cc, t in _facts(f, c):
-            conds[cc["id"]] = cc
-    if len(clamps) >= 2 and not late and all(cfg.dominates(cc, noop) for cc in conds.values()):
-        ctx.ok("lbuf_edit", "both range clamps precede the no-op test, which dominates the log call")
+                      "a path reaches lbuf_opt on which neither `beg != end` nor `buf != NULL` is known: an "
+                      "empty delete would push an undo step and cut the redo branch", f.loc(opts[0]))
+    elif order_bad is not None:
+        ctx.violation("lbuf_edit", "no-op edit leaves no history entry",
+                      "`%s` is tested before both bounds are clamped to the buffer: a delete past the end of "
+                      "the buffer is logged as a step although it changes nothing" % key(order_bad), f.loc(order_bad))
     else:
-        ctx.violation("lbuf_edit", "no-op edit leaves no history entry",
-                      "the range is clamped to the buffer after the `beg == end` test: a delete past the "
-                      "end of the buffer is logged as a step although it changes nothing",
-                      f.loc(late[0]) if late else f.loc(noop))
+        ctx.ok("lbuf_edit", "on all %d paths to lbuf_opt the edit is not a no-op, judged after both clamps" % n_p)
 
 
 def rule_X5(ctx):
     ctx.begin("X5", floor=1, what="pattern-address scan vs its success test")
+    from ..lin import feasible
     f = ctx.prog.func("ex_search", file="ex.c")
+    cfg = f.cfg
     loop = None
     for c in f.calls(("rstr_find", "rset_find")):
         loop = enclosing(f, c["id"], ("while", "for"))
-    if loop is None:
+    if loop is None or loop.get("c") is None:
         raise AnalysisBroken("ex_search: scan loop not found")
-    lk = key(loop["c"])
-    good = False
-    for r in f.cfg.return_nodes():
-        e = strip_casts(r.get("e"))
-        if e is not None and e["k"] == "cond":
-            if key(strip_casts(e["c"])) == lk and cval(e["f"]) is not None and cval(e["f"]) < 0:
-                good = True
-            elif cval(e["f"]) is not None and cval(e["f"]) < 0:
-                ctx.violation("ex_search", "scan bound equals the success test",
-                              "the scan runs while %s but success is judged by %s: a row the scan never "
-                              "tested can be reported as a match" % (lk, key(e["c"])), f.loc(r))
-                return
-    if good:
-        ctx.ok("ex_search", "a row is reported only if the scan stopped inside its own bound (%s)" % lk)
+    # the loop is left either by `break` (a row matched) or because its condition failed
+    # (rows exhausted).  After exhaustion no return may yield a row: every path from a false
+    # edge of the loop condition to a return of a possibly non-negative value is infeasible.
+    leaves = flatten_and(loop["c"])
+    n_paths = 0
+    bad = None
+    for leaf in leaves:
+        blk = cfg.branch_of_cond(leaf["id"])
+        if blk is None:
+            continue
+        start = blk.succ[1]
+        for items, end in enum_paths(cfg, start, set()):
+            if end != cfg.exit:
+                continue
+            rets = [f.nodes.get(x[1]) for x in items if x[0] == "ev" and f.nodes.get(x[1], {}).get("k") == "return"]
+            if not rets:
+                continue
+            r = rets[-1]
+            hyps = cmp_constraints(leaf, False)
+            for x in items:
+                if x[0] == "br":
+                    hyps += cmp_constraints(f.nodes[x[1]], x[2])
+            e = strip_casts(r["e"])
+            arms = []
+            if e["k"] == "cond":
+                arms = [(e["t"], cmp_constraints(e["c"], True)), (e["f"], cmp_constraints(e["c"], False))]
+            else:
+                arms = [(e, [])]
+            for val, extra in arms:
+                v = cval(val)
+                if v is not None and v < 0:
+                    continue
+                n_paths += 1
+                if feasible(hyps + extra):
+                    bad = (leaf, r)
+    if bad:
+        ctx.violation("ex_search", "scan bound equals the success test",
+                      "after the scan ran out of rows (`%s` false) the function can still return a row: a "
+                      "line the scan never tested is reported as a match" % key(bad[0]), f.loc(bad[1]))
+    elif n_paths:
+        ctx.ok("ex_search", "a row is returned only when the scan stopped on a match (%d exhausted-scan "
+               "paths are infeasible)" % n_paths)
     else:
-        ctx.inconclusive("ex_search", "scan bound equals the success test", "return form not recognised")
+        ctx.ok("ex_search", "after an exhausted scan only negative values are returned")
 
 
 def rule_V4(ctx):
@@ -340,9 +400,9 @@ def rule_V6(ctx):
     f = ctx.prog.func("ren_noeol", file="ren.c")
     o = f.params[1]["name"]
     nvar = None
-    for n in f.walk():
-        if n["k"] == "var" and n.get("init") is not None and "uc_slen" in key(n["init"]):
-            nvar = n["name"]
+    for n, lv, op, rhs in stores(f.body):
+        if rhs is not None and "uc_slen" in key(rhs) and lv["k"] in ("ref", "var"):
+            nvar = lv["name"]
     if nvar is None:
         raise AnalysisBroken("ren_noeol: character count variable not found")
     bad = None
